@@ -503,8 +503,11 @@ def static_dim_length(in_axes, args: tuple[Any, ...]) -> int | None:
     def find_axis_size(axis: int | None, x: Any) -> int | None:
         """Find the size of the axis specified by `axis` for the argument `x`."""
         if axis is not None:
-            leaf = jtu.tree_leaves(x)[0]
-            return leaf.shape[axis]
+            leaves = jtu.tree_leaves(x)
+            # An argument without array leaves (e.g. an empty constraint `None`
+            # passed to a vectorized `generate`) says nothing about the axis size.
+            if leaves:
+                return leaves[0].shape[axis]
 
     # tree_map uses in_axes as a template. To have passed vmap validation, Any non-None entry
     # must bottom out in an array-shaped leaf, and all such leafs must have the same size for
